@@ -1,0 +1,184 @@
+//go:build verif
+// +build verif
+
+package tensor
+
+import (
+	"runtime"
+	"sync"
+)
+
+// This file exists only under the `verif` build tag. It lets an external deterministic-simulation
+// harness take over the decisions that sync.Pool, the garbage collector and the finalizer queue
+// normally make, so that they become a function of a seed. Nothing here is compiled into ordinary builds.
+
+const verifEnabled = true
+
+// Pool kinds reported to the hooks.
+const (
+	VerifPoolInts   = 0 // intsPool[class], class = cap of the []int
+	VerifPoolOpOpt  = 1 // optPool, class = 0
+	VerifPoolScalar = 2 // scalarRC[class], class = size in bytes of the []byte
+)
+
+// VerifHooks are the simulator's callbacks.
+type VerifHooks struct {
+	// PoolGet is called in place of sync.Pool's New: the real pools are kept permanently empty,
+	// so every Get() ends up here. It must return a []int of len==cap==class, a *OpOpt, or a []byte of len class.
+	PoolGet func(kind, class int) interface{}
+	// PoolPut is called after the library has prepared (zeroed) the item, in place of sync.Pool.Put.
+	PoolPut func(kind, class int, v interface{})
+	// Finalizer is called in place of runtime.SetFinalizer(obj, destroyIterator) for MultIterators.
+	Finalizer func(obj interface{})
+}
+
+var verifHooks *VerifHooks
+
+// VerifInstall installs (or with nil removes) the simulator's hooks and empties the real sync.Pools.
+func VerifInstall(h *VerifHooks) {
+	verifHooks = h
+	for i := range intsPool {
+		size := i
+		intsPool[i] = sync.Pool{New: func() interface{} {
+			if hh := verifHooks; hh != nil && hh.PoolGet != nil {
+				return hh.PoolGet(VerifPoolInts, size)
+			}
+			return make([]int, size)
+		}}
+	}
+	optPool = &sync.Pool{New: func() interface{} {
+		if hh := verifHooks; hh != nil && hh.PoolGet != nil {
+			return hh.PoolGet(VerifPoolOpOpt, 0)
+		}
+		return new(OpOpt)
+	}}
+	scalarRCLock.Lock()
+	scalarRC = make(map[uintptr]*sync.Pool)
+	scalarRCLock.Unlock()
+}
+
+func verifPoolPut(kind, class int, v interface{}) bool {
+	hh := verifHooks
+	if hh == nil || hh.PoolPut == nil {
+		return false
+	}
+	hh.PoolPut(kind, class, v)
+	return true
+}
+
+func verifWrapScalarPool(size uintptr) func() interface{} {
+	return func() interface{} {
+		if hh := verifHooks; hh != nil && hh.PoolGet != nil {
+			return hh.PoolGet(VerifPoolScalar, int(size))
+		}
+		return make([]byte, size)
+	}
+}
+
+func verifFinalizer(obj interface{}) {
+	hh := verifHooks
+	if hh == nil || hh.Finalizer == nil {
+		return
+	}
+	runtime.SetFinalizer(obj, nil)
+	hh.Finalizer(obj)
+}
+
+// VerifRunFinalizer runs what the garbage collector would have run for obj.
+func VerifRunFinalizer(obj interface{}) {
+	if it, ok := obj.(Iterator); ok {
+		destroyIterator(it)
+	}
+}
+
+// VerifChanPools reports the occupancy of the three channel-backed pools.
+func VerifChanPools() (dense, header, bools int) {
+	return len(densePool), len(headerPool), len(boolsPool)
+}
+
+// VerifDrainChanPools empties the channel-backed pools ("fresh process").
+func VerifDrainChanPools() {
+	for {
+		select {
+		case <-densePool:
+		case <-headerPool:
+		case <-boolsPool:
+		default:
+			return
+		}
+	}
+}
+
+// VerifFillDensePool tops the tensor pool up to n entries with blank tensors, as a long-running
+// process that returned many tensors would have done.
+func VerifFillDensePool(n int) {
+	for len(densePool) < n && len(densePool) < cap(densePool) {
+		t := new(Dense)
+		t.e = StdEng{}
+		densePool <- t
+	}
+}
+
+// VerifRotateDensePool moves k entries from the head of the tensor pool to its tail.
+func VerifRotateDensePool(k int) {
+	for ; k > 0 && len(densePool) > 1; k-- {
+		select {
+		case t := <-densePool:
+			densePool <- t
+		default:
+			return
+		}
+	}
+}
+
+// VerifUsePool reports the usePool flag.
+func VerifUsePool() bool {
+	habbo.Lock()
+	defer habbo.Unlock()
+	return usePool
+}
+
+// VerifDenseInternals is a copy of the unexported per-tensor state the oracles compare.
+type VerifDenseInternals struct {
+	Shape, Strides       []int
+	OldShape, OldStrides []int
+	TransposeWith        []int
+	HasOld               bool
+	ViewOf               uintptr
+	Flag                 MemoryFlag
+	DataOrder            DataOrder
+	Triangle             Triangle
+	Mask                 []bool
+	MaskIsSoft           bool
+	RawLen               int
+	RawPtr               uintptr
+	EngineIsStd          bool
+}
+
+// VerifInternals copies t's unexported state (slices are copied, Raw is not).
+func VerifInternals(t *Dense) VerifDenseInternals {
+	var r VerifDenseInternals
+	r.Shape = append([]int(nil), t.AP.shape...)
+	r.Strides = append([]int(nil), t.AP.strides...)
+	r.OldShape = append([]int(nil), t.old.shape...)
+	r.OldStrides = append([]int(nil), t.old.strides...)
+	r.HasOld = !t.old.IsZero()
+	if t.transposeWith != nil {
+		r.TransposeWith = append([]int{}, t.transposeWith...)
+	}
+	r.ViewOf = t.viewOf
+	r.Flag = t.flag
+	r.DataOrder = t.AP.o
+	r.Triangle = t.AP.Δ
+	if t.mask != nil {
+		r.Mask = append([]bool{}, t.mask...)
+	}
+	r.MaskIsSoft = t.maskIsSoft
+	r.RawLen = len(t.array.Header.Raw)
+	r.RawPtr = t.array.Uintptr()
+	_, r.EngineIsStd = t.e.(StdEng)
+	return r
+}
+
+// VerifRaw returns the tensor's raw byte window (aliasing, not a copy).
+func VerifRaw(t *Dense) []byte { return t.array.Header.Raw }
